@@ -113,6 +113,21 @@ def rule_verify_before_accept(ctx: Ctx) -> None:
             isinstance(resolve(fi, arg(v, 0)), ast.Call) and resolve(fi, arg(v, 0)) in vcalls
         ctx.check(ok, "verify-before-accept", fi, st, "hop.keys = generate_session_keys(<verified shared secret>)",
                   "the accepted session keys are not derived from the verified shared secret")
+    # the pending hop is cleared before the hop is appended: nothing that can raise lies between acceptance and the reset,
+    # otherwise a duplicate of the same answer verifies again and appends the same peer twice
+    resets = [n for s_, t in stores(fi, lambda c: c.endswith(".unverified_hop")) if const_value(s_.value) is None for n in cfg.nodes_for(s_)]
+    for c in [c for c in calls(fi) if call_name(c) == "add_hop"]:
+        ok = bool(resets) and all(cfg.must_complete(n, resets) for n in cfg.nodes_for(c))
+        ctx.check(ok, "verify-before-accept", fi, c, "circuit.unverified_hop is cleared before add_hop on every path",
+                  "the accepted hop stays registered as the pending hop on some path after add_hop: a duplicated answer is verified again and the same peer is appended twice")
+    # the session keys are derived from the WHOLE shared secret (ephemeral and static half)
+    gk = repo.method("TunnelCrypto", "generate_session_keys", CR)
+    ks = [c for c in calls(gk, "_generate_session_keys")]
+    ok = len(ks) == 1 and norm(arg(ks[0], 0)) == gk.params()[0] and not local_defs(gk, gk.params()[0])
+    imp = gk.module.imports.get("_generate_session_keys")
+    ok = ok and imp is not None and imp[0] == "ipv8_rust_tunnels"
+    ctx.check(ok, "selected-peer-key", gk, gk.node, "session keys = KDF(whole shared secret)",
+              "the KDF is not fed the complete shared secret: the half that binds the keys to the selected peer's static key is dropped, so whoever answers with an own ephemeral key shares the accepted keys")
     # the hop that is added is the unverified hop of this circuit
     circ = single_def(fi, "circuit")
     ok_circ = circ is not None and norm(circ[0]) == f"self.circuits[{cid}]"
